@@ -135,6 +135,8 @@ type vfC17Conn struct {
 	idle    bool  // deplex is inside Read with nothing pending
 	written int64 // bytes the switchboard wrote (what AddTx sees)
 	readN   int64 // bytes handed to deplex (what AddRx sees)
+	notice  int64 // of written: bytes written while the session was already closed (Session.Close's notice frame)
+	sesh    *mux.Session
 }
 
 func vfC17NewConn() *vfC17Conn {
@@ -168,6 +170,9 @@ func (c *vfC17Conn) Write(p []byte) (int, error) {
 		return 0, io.ErrClosedPipe
 	}
 	c.written += int64(len(p))
+	if c.sesh != nil && c.sesh.IsClosed() {
+		c.notice += int64(len(p))
+	}
 	return len(p), nil
 }
 
@@ -390,6 +395,7 @@ func (r *vfC17Rig) dispatch(t *vfC17Thr, uid int, sid uint32) {
 		k := -1
 		if !existing {
 			c := vfC17NewConn()
+			c.sesh = sesh
 			sesh.AddConnection(c)
 			var arr [16]byte
 			copy(arr[:], UID)
@@ -668,8 +674,12 @@ func (r *vfC17Rig) step(st string) string {
 		}
 	case 'B':
 		k, _ := strconv.Atoi(body[1:])
+		// the session's connection is lost: deplex sees EOF and closes the session passively (no notice frame)
 		if s := r.ses(k); s != nil {
-			s.sesh.Close()
+			s.conn.Close()
+			for i := 0; i < 20000 && !s.sesh.IsClosed(); i++ {
+				time.Sleep(50 * time.Microsecond)
+			}
 		}
 	case 'U':
 		r.spawn('U', hooked, func(t *vfC17Thr) { r.panel.updateUsageQueue() })
@@ -783,7 +793,7 @@ func vfC17RunScenario(dir, id string, now int64, users string, steps []string) (
 	vfC17SesM.Lock()
 	for k, s := range r.sessions {
 		s.conn.mu.Lock()
-		sesInfo += fmt.Sprintf(" %d:%d:%s:%s:%d:%d", k, s.uid, vfC17B(s.sesh.IsClosed()), vfC17B(s.bornDead), s.conn.readN, s.conn.written)
+		sesInfo += fmt.Sprintf(" %d:%d:%s:%s:%d:%d:%d", k, s.uid, vfC17B(s.sesh.IsClosed()), vfC17B(s.bornDead), s.conn.readN, s.conn.written, s.conn.notice)
 		s.conn.mu.Unlock()
 	}
 	vfC17SesM.Unlock()
